@@ -334,4 +334,25 @@ def c10(tier):
         HS_FUNCS)
 
 
-PROPS = {'C10': c10, 'C07': c07, 'C08': c08, 'C09': c09, 'C13': c13, 'C03': c03, 'C02': c02, 'C05': c05, 'C01': c01, 'C04': c04, 'C14': c14}
+def c19(tier):
+    q = tier == 'quick'
+    S = lambda name, what, **P: Spec(name, 'checks.proxy', 'run_proxy', dict(P, xval_stride=P.get('xval_stride', 11)), what=what)
+    specs = [
+        S('status', '9 proxy/URL configurations x proxy answer = "HTTP/1.1 " + 3 SYMBOLIC status bytes (any values) + terminated tail '
+          '(with/without headers); one read', tails=['ok', 'ok-headers']),
+        S('tails', '9 configurations x answer tail in {terminated, with headers, unterminated+EOF, empty, >16KiB unterminated, >16KiB terminated, '
+          'garbage} (solver variables), status 200', sym_status=False),
+        S('segmented', 'answers cut at a symbolic position (two recv(1024) reads), status 200', cuts='symcut', sym_status=False,
+          configs=[0, 2, 3], tails=['ok', 'ok-headers', 'unterminated-eof']),
+        S('bytewise', 'answer delivered one byte per recv', cuts='bytewise', configs=[0, 3], tails=['ok', 'ok-headers', 'unterminated-eof']),
+        S('faults', 'one symbolic fault (socket error / arbitrary exception) at any proxy-socket call', sym_status=False,
+          configs=[0, 3, 4], tails=['ok', 'unterminated-eof'],
+          fault=dict(ops=['getaddrinfo', 'socket', 'connect', 'sendall', 'recv', 'wrap_socket'], kinds=['oserror', 'exception'], max=1)),
+    ]
+    return run_property('C19', tier, specs, 'model_checking', 'nothing is sent to the target before the tunnel is up', ENV_ASSUMPTIONS + [
+        'urlparse is library code: proxy URL shapes are a concrete grid', 'both the proxy TLS layer and the target TLS layer are stubs'],
+        ['lomond.session.WebsocketSession._connect/_connect_proxy/_connect_sock/_wrap_socket/run', 'lomond.proxy.build_request/ProxyParser.parse',
+         'lomond.response.Response.__init__', 'lomond.parser.Parser.feed'])
+
+
+PROPS = {'C19': c19, 'C10': c10, 'C07': c07, 'C08': c08, 'C09': c09, 'C13': c13, 'C03': c03, 'C02': c02, 'C05': c05, 'C01': c01, 'C04': c04, 'C14': c14}
